@@ -13,7 +13,7 @@ PairsThorough ==
      { {"cons", d} : d \in {"opt", "geom", "recipe", "entry"} }
   \cup { {"opt", d} : d \in {"geom", "recipe", "entry", "truth"} }
   \cup { {"types", d} : d \in {"recipe", "entry"} }
-  \cup { {"csill", "recipe"}, {"geom", "truth"}, {"empty", "recipe"}, {"entry", "recipe"} }
+  \cup { {"geom", "truth"}, {"empty", "recipe"}, {"entry", "recipe"} }
 
 Emit == (~Valid(req)) \/ PrintT(ToJson(Concrete(req)))
 
